@@ -74,6 +74,7 @@ func run(c *core.Ctx) {
 		"(1, 4096, 64KiB-1/+0/+1/+small, 128KiB-1/+0/+1/+small, 192KiB, later multiples of 64KiB, S/2, S-64KiB, S-4096, S-1, random), limits S and S+1 (must succeed), sync failure, reader at every point}; " +
 		"distinct = (fault, previous kind, size class, write position or limit class, which snapshot the file is). " +
 		"leftover temp files: life 1 = the real save killed at one of 4 protocol points while writing a 150-250 job table (as save #1 or #2 of its process), life 2 = a fresh process doing 1-2 fault-free saves of 1-3 job tables in the same directory, then a fresh loader: the file must be exactly the last table saved; distinct = (point, dying save number, saves in life 2, temp file left, outcome). " +
+		"restart save: life 1 saves table A, life 2 loads the file with the same offsetDB it then saves table B with (some jobs of A gone, some advanced, some new; 1-2 saves), fresh loader: exactly B. " +
 		"concurrent: 1-6 committers over 1-4 jobs x 1-3 streams through the real commit, sync or async persistence, GOMAXPROCS 1-8, seeded yields after the store; " +
 		"non-trivial = at least one snapshot taken while a commit was in flight; distinct = hash of which commit each key shows in every snapshot. " +
 		"syscall order: strace of 3-7 successive saves per run.")
